@@ -7,5 +7,7 @@ RvCases == {<<"A1", "B1", "B2", "liquidator">>}
 RvPrices == {<<"B1", 3, 4>>, <<"B1", 7, 10>>, <<"B1", 1, 2>>, <<"B1", 1, 8>>, <<"B1", 1, 10>>}
 RvPricesT == RvPrices \cup {<<"B2", 3, 1>>, <<"B1", 124999, 1000000>>}
 RvLiq == {<<"A2", "A1", "B1", "B2">>}
+RvCasesZ == {<<"A1", "B1", "B2", "liquidator">>, <<"A1", "B3", "B2", "liquidator">>, <<"A1", "B4", "B2", "liquidator">>}
+RvPricesZ == {<<"B1", 7, 10>>, <<"B1", 1, 2>>, <<"B1", 1, 10>>}
 RvNone == {}
 =============================================================================
